@@ -183,6 +183,17 @@ func cmpConst(v ssa.Value) (x ssa.Value, k int64, eq bool, ok bool) {
 			return stripConv(b.Y), n, b.Op == token.EQL, true
 		}
 	}
+	// comparisons with nil: remembered as "== 0" on the (pointer/interface/func) value
+	if isNilConst(b.Y) {
+		if _, isC := b.X.(*ssa.Const); !isC {
+			return b.X, 0, b.Op == token.EQL, true
+		}
+	}
+	if isNilConst(b.X) {
+		if _, isC := b.Y.(*ssa.Const); !isC {
+			return b.Y, 0, b.Op == token.EQL, true
+		}
+	}
 	return nil, 0, false, false
 }
 
